@@ -168,13 +168,14 @@ func (t *Teamserver) ListenerRemove(Name string) ([]*Listener, []packager.Packag
 
 			t.Listeners = append(t.Listeners[:i], t.Listeners[i+1:]...)
 
-			for EventID := range t.EventsList {
+			// drop every retained Add event of this listener (the operator's request and the
+			// listener's own announcement), walking backwards so that removal keeps the indices valid
+			for EventID := len(t.EventsList) - 1; EventID >= 0; EventID-- {
 				if t.EventsList[EventID].Head.Event == packager.Type.Listener.Type {
 					if t.EventsList[EventID].Body.SubEvent == packager.Type.Listener.Add {
 						if name, ok := t.EventsList[EventID].Body.Info["Name"]; ok {
 							if name == Name {
 								t.EventsList = append(t.EventsList[:EventID], t.EventsList[EventID+1:]...)
-								return t.Listeners, t.EventsList
 							}
 						}
 					}
